@@ -118,8 +118,17 @@ fn cases(quick: bool) -> Vec<Case> {
         let ks: Vec<usize> = if all_k { (0..n).collect() } else { gen::list_lengths(n) };
         for &k in &ks {
             let sources: Vec<&'static str> = if n <= 64 || !quick { vec!["literal", "witness", "function", "match"] } else { vec!["literal", "witness"] };
+            let mut sources = sources;
+            // every element its own witness / alternating constants and witnesses (small bounds: k witnesses per program)
+            if k >= 1 && (n <= 16 || (!quick && n <= 64)) {
+                sources.push("witness-elements");
+                sources.push("mixed-elements");
+            }
             for source in sources {
                 let mut funcs: Vec<String> = vec!["counter".into()];
+                if source == "witness-elements" || source == "mixed-elements" {
+                    funcs.push("hash".into());
+                }
                 if n <= 256 && (source == "literal" || source == "witness") {
                     funcs.push("hash".into());
                     if n <= 64 || !quick {
@@ -155,7 +164,7 @@ fn cases(quick: bool) -> Vec<Case> {
 pub fn run(rep: &Report) -> i32 {
     let quick = rep.is_quick();
     let cs = cases(quick);
-    rep.set("bounds", json!({"cases": cs.len(), "bounds_N": if quick {"2..256 (all lengths for N<=64, block edges +-1 above)"} else {"2..512 (all lengths for N<=256, block edges +-1 for 512)"}, "sources": ["literal", "witness", "function", "match"], "fold_functions": ["counter", "hash", "tagged", "opt", "panic@j"]}));
+    rep.set("bounds", json!({"cases": cs.len(), "bounds_N": if quick {"2..256 (all lengths for N<=64, block edges +-1 above)"} else {"2..512 (all lengths for N<=256, block edges +-1 for 512)"}, "sources": ["literal", "witness", "function", "match", "witness-elements (N<=16 quick, <=64 thorough)", "mixed-elements"], "fold_functions": ["counter", "hash", "tagged", "opt", "panic@j"]}));
     par_for(&cs, rep, 4, |i, c| {
         drive::DUMMY.with(|env| check_case(rep, c, i, env));
     });
@@ -184,6 +193,21 @@ fn check_case(rep: &Report, c: &Case, idx: usize, env: &drive::Env) {
             assignments = vec![vec![Val::List(elements.clone())]];
             var("xl")
         }
+        "witness-elements" | "mixed-elements" => {
+            let mut es = vec![];
+            let mut vals = vec![];
+            for (i, v) in elements.iter().enumerate() {
+                if c.source == "mixed-elements" && i % 2 == 0 {
+                    es.push(val_expr(v, &el_ty));
+                } else {
+                    free.push((format!("xe{i:03}"), el_ty.clone()));
+                    vals.push(v.clone());
+                    es.push(var(&format!("xe{i:03}")));
+                }
+            }
+            assignments = vec![vals];
+            Expr::List(es)
+        }
         "function" => {
             fns.push(FnDef { name: "mk".into(), params: vec![], ret: Some(list_ty.clone()), body: (vec![], Some(Box::new(lit))) });
             fcall("mk", vec![])
@@ -197,7 +221,8 @@ fn check_case(rep: &Report, c: &Case, idx: usize, env: &drive::Env) {
     };
     let term = call(CallName::Fold(fname, c.n), vec![list_expr, init_e]);
     let tag = format!("fold N={} k={} source={} fn={}", c.n, c.k, c.source, c.func);
-    let pinned = match pin_build(&term, &acc_ty, &free, &fns, &[false]) {
+    let direct = c.source == "witness-elements" || c.source == "mixed-elements";
+    let pinned = match if direct { pin_build_direct(&term, &acc_ty, &free, &fns, &[false]) } else { pin_build(&term, &acc_ty, &free, &fns, &[false]) } {
         Ok(p) => p,
         Err((text, o)) => {
             rep.violation("C08:not-compiled", format!("{tag}: well-typed fold program not compiled: {o:?}"), json!({"kind": "compile", "program": text, "expect": "accept", "observed": "reject"}));
